@@ -1077,6 +1077,44 @@ def tuple_if_let(fn):
     return n
 
 
+def ufcs_calls(fn, fns):
+    """D46  `Type::method(recv, args..)` (a call of a crate method through its path, e.g. a method handed to a generic helper as `Tensor::add_inplace`)
+            ->  `recv.method(args..)`"""
+    n = 0
+    for x in _walk(fn.get("body")):
+        if x.get("k") != "call" or not x.get("args"):
+            continue
+        c = x.get("callee")
+        if not isinstance(c, str):
+            continue
+        c0 = c[5:] if c.startswith("Self:") else c
+        f = fns.get(c0)
+        if f is None or f.get("kind") != "AssocFn" or not f.get("params"):
+            continue
+        p0 = f["params"][0]
+        while p0 is not None and p0.get("k") in ("ref", "deref"):
+            p0 = p0["p"]
+        if p0 is None or p0.get("k") != "bind" or p0.get("name") != "self":
+            continue
+        recv = x["args"][0]
+        r0 = _unblk(recv)
+        was_mut = False
+        while r0 is not None and r0.get("k") == "ref" and isinstance(r0.get("x"), dict):
+            was_mut = was_mut or bool(r0.get("mut"))
+            r0 = _unblk(r0["x"])         # the auto-ref of method-call syntax
+        if r0 is None:
+            continue
+        tys = _TYPES[0] or []
+        if was_mut and r0.get("t") is not None and r0["t"] < len(tys) and ("&mut " + tys[r0["t"]]) in tys:
+            r0 = dict(r0)
+            r0["ta"] = tys.index("&mut " + tys[r0["t"]])      # the adjusted (auto-borrowed) type of the receiver, as rustc records it for `recv.method()`
+        rest = x["args"][1:]
+        x.pop("f", None)
+        x.update({"k": "mcall", "name": c0.rsplit("::", 1)[-1], "callee": c0, "recv": r0, "args": rest, "from_ufcs": True})
+        n += 1
+    return n
+
+
 def deref_of_ref(fn):
     """D43  `*&X` / `*&mut X`  ->  `X`   (what a by-reference parameter substituted by its argument leaves behind)"""
     n = 0
@@ -1095,6 +1133,18 @@ def deref_of_ref(fn):
             while isinstance(i0, dict) and i0.get("k") == "blk" and i0.get("lbl") is None and not i0["b"]["stmts"] and i0["b"].get("tail") is not None:
                 i0 = i0["b"]["tail"]
             if isinstance(i0, dict) and i0.get("k") == "ref" and isinstance(i0.get("x"), dict):
+                n += 1
+                return i0["x"]
+        if x.get("k") == "mcall" and isinstance(x.get("recv"), dict) and x["recv"].get("k") == "ref" and isinstance(x["recv"].get("x"), dict) and _pure_access(x["recv"]["x"]):
+            # `(&v).m()` / `(&mut v).m()`: method-call syntax borrows the receiver anyway
+            x["recv"] = x["recv"]["x"]
+            n += 1
+        if x.get("k") == "ref" and isinstance(x.get("x"), dict):
+            # `&*r` / `&mut *r` (a re-borrow of what the reference `r` points to) names the same place as `r`
+            i0 = x["x"]
+            while isinstance(i0, dict) and i0.get("k") == "blk" and i0.get("lbl") is None and not i0["b"]["stmts"] and i0["b"].get("tail") is not None:
+                i0 = i0["b"]["tail"]
+            if isinstance(i0, dict) and i0.get("k") == "un" and i0.get("op") == "Deref" and isinstance(i0.get("x"), dict) and i0["x"].get("k") == "local":
                 n += 1
                 return i0["x"]
         return x
@@ -4016,6 +4066,7 @@ def run(facts):
         counts["match_guards"] = counts.get("match_guards", 0) + match_guards(fn)
         counts["bool_matches"] = counts.get("bool_matches", 0) + bool_match_to_if(fn)
         counts["loop_break_values"] = counts.get("loop_break_values", 0) + loop_break_value(fn)
+        counts["ufcs_calls"] = counts.get("ufcs_calls", 0) + ufcs_calls(fn, facts["fns"])
         counts["tuple_if_let"] = counts.get("tuple_if_let", 0) + tuple_if_let(fn)
         counts["slice_matches"] = counts.get("slice_matches", 0) + slice_pattern_matches(fn)
         counts["deref_of_ref"] = counts.get("deref_of_ref", 0) + deref_of_ref(fn)
